@@ -373,6 +373,8 @@ class Trace:
         self.steps = []     # dict(H0, H1, dump0 {(igrid,local): rec}, dump1, calls [..], tasks)
         self.base = {}      # igrid -> (addr, stride, limaddr, ncell)
         self.tasktype = {}  # itask -> (igrid, slot, type)
+        self.children = {}  # itask -> child task indices as constructed by set_dependencies
+        self.taskfoot = {}  # itask -> set of subgrids it locks (its own and, for a pair task, the neighbour)
         cur = None
         self.bad = []
         running = None
@@ -383,6 +385,8 @@ class Trace:
             k = w[1]
             if k == "T" and len(w) >= 6 and w[4] != "-1":
                 self.tasktype[int(w[4])] = (int(w[2]), int(w[3]), int(w[5]))
+                self.taskfoot[int(w[4])] = set(int(x) for x in (w[6], w[7], w[8]) if int(x) >= 0)
+                self.children[int(w[4])] = [int(x) for x in w[10:10 + int(w[9])]]
             elif k == "S":
                 cur = dict(H={}, dump={0: {}, 1: {}}, calls=[], order=[])
                 self.steps.append(cur)
@@ -402,8 +406,10 @@ class Trace:
                 cur["calls"].append((k, [int(x) for x in w[2:]], running))
             elif k == "A":
                 running = int(w[3])
+                cur["order"].append(("A", int(w[3])))
             elif k == "F":
                 running = None
+                cur["order"].append(("F", int(w[3])))
 
     def decode(self, addr):
         for g, (base, stride, lim, n) in self.base.items():
